@@ -19,7 +19,9 @@ def gen(rng):
     g = docs.Gen(rng, hostile=0.03, rich=0.4)
     v = '1.3'
     pool = [f'i{k}' for k in range(1, 6)]
-    e = g.lexicon('e', '1', v, n_syn=rng.randint(4, 7), n_ent=1, lang='en', ili_pool=pool)
+    # the providers come from files of any WN-LMF version (a 1.0 file cannot declare dependencies itself)
+    ve, ve2 = rng.choice(['1.0', '1.3']), rng.choice(['1.0', '1.1', '1.3'])
+    e = g.lexicon('e', '1', ve, n_syn=rng.randint(4, 7), n_ent=1, lang='en', ili_pool=pool)
     ys = e['synsets']
     for i, y in enumerate(ys):       # a hypernym backbone plus extra relations inside e
         rels = y.setdefault('relations', [])
@@ -37,7 +39,7 @@ def gen(rng):
     u = g.lexicon('u', '1', v, n_syn=3, n_ent=1, lang='ja', ili_pool=pool)
     # a second version of the expand lexicon and a lexicon that requires it (and a version that is not installed):
     # the selected lexicons then declare different versions of one provider id
-    e2 = g.lexicon('e', '2', v, n_syn=rng.randint(2, 4), n_ent=1, lang='en', ili_pool=pool)
+    e2 = g.lexicon('e', '2', ve2, n_syn=rng.randint(2, 4), n_ent=1, lang='en', ili_pool=pool)
     for y in e2['synsets']:
         y['id'] = y['id'].replace('e-', 'e2-', 1)
     for en in e2.get('entries', []):
@@ -54,7 +56,8 @@ def gen(rng):
                   requires=[{'id': 'e', 'version': '2'}] + ([{'id': 'e', 'version': '3'}] if rng.random() < 0.5 else []))
     W = {'e:1': e, 'b:1': L, 'u:1': u, 'e:2': e2, 'c:1': c}
     order = rng.choice([['e:1', 'b:1', 'u:1', 'e:2', 'c:1'], ['b:1', 'u:1', 'e:1', 'c:1', 'e:2'], ['b:1', 'u:1', 'c:1'], ['e:2', 'c:1', 'b:1', 'e:1']])
-    ops = [multi.add_op(W, [s], v) for s in order]
+    vers = {'e:1': ve, 'e:2': ve2}
+    ops = [multi.add_op(W, [s], vers.get(s, v)) for s in order]
     for ex in (None, '', 'e:1', 'e:1 u:1', '*', 'u:1'):
         op = {'k': 'battery', 'lexicon': 'b:1'}
         if ex is not None:
